@@ -499,6 +499,7 @@ func runC13(c *Ctx) {
 	// R12: the lowest failing offset is elected among offsets that did not wrap (shared with C12.R10)
 	c.withRule("R12", func() { checkChunkOffsetsCannotWrap(c, "R10") })
 	checkShortChunkEndsTransfer(c, "R13")
+	checkConcurrentCopyOnlyOfRegularFiles(c, "R14")
 
 	// R7: ReadFrom / ReadFromWithConcurrency leave the File offset at the end of the intact prefix
 	checkOffsetStores(c, "R7", map[string]bool{"(*File).ReadFrom": true, "(*File).readFromWithConcurrency": true})
@@ -1688,4 +1689,52 @@ func exportedFileMethods(p *Program, fileT types.Type) []*ssa.Function {
 	}
 	sort.Slice(exported, func(i, j int) bool { return exported[i].Name() < exported[j].Name() })
 	return exported
+}
+
+// checkConcurrentCopyOnlyOfRegularFiles (C13.R14, C01.R17): WriteTo's concurrent pipeline requests fixed chunks and
+// takes a DATA reply shorter than its chunk for the end of the file (R13) — which is only what a short read means for a
+// regular file.  A device, a FIFO or a /proc-like file may answer short at any time; copied through the pipeline the
+// transfer stops there with a nil error.  So the pipeline (its worker goroutines) is entered only on the side of the
+// isRegular test on which the file is regular; everything else is copied sequentially, chunk after chunk until EOF.
+func checkConcurrentCopyOnlyOfRegularFiles(c *Ctx, rule string) {
+	p := c.P
+	wt := p.Func("(*File).WriteTo")
+	if wt == nil {
+		c.missing(rule, "(*File).WriteTo")
+		return
+	}
+	c.looked(fnName(wt))
+	var edges []edgeRef
+	for _, b := range wt.Blocks {
+		iff, ok := b.Instrs[len(b.Instrs)-1].(*ssa.If)
+		if !ok {
+			continue
+		}
+		v, neg := iff.Cond, false
+		if u, isU := v.(*ssa.UnOp); isU && u.Op == token.NOT {
+			v, neg = u.X, true
+		}
+		call, isCall := v.(*ssa.Call)
+		if !isCall || calleeName(&call.Call) != "isRegular" {
+			continue
+		}
+		// the argument is the mode of the file being copied (its own stat)
+		regular := 0
+		if neg {
+			regular = 1
+		}
+		edges = append(edges, edgeRef{from: b, succ: regular})
+	}
+	isWorker := func(in ssa.Instruction) bool { _, ok := in.(*ssa.Go); return ok }
+	nGo := len(findInstrs(wt, isWorker))
+	if nGo == 0 {
+		c.okT(rule, "WriteTo pipeline only for regular files", p.Pos(wt.Pos()), "WriteTo starts no worker goroutines: there is no concurrent pipeline")
+		return
+	}
+	if len(edges) == 0 {
+		c.bad(rule, "WriteTo pipeline only for regular files", p.Pos(wt.Pos()), "WriteTo starts its concurrent pipeline without asking whether the file is regular: a device, FIFO or /proc-like file whose reads come back short is copied up to the first short read and reported complete (nil error)")
+		return
+	}
+	c.check(onlyViaEdges(wt, edges, isWorker), rule, "WriteTo pipeline only for regular files", p.Pos(wt.Pos()), "every path to the workers takes the regular side of isRegular(mode)",
+		"the concurrent pipeline of WriteTo can be entered for a file that is not regular: a short read of a device, FIFO or /proc-like file is then taken for the end of the file and the copy ends early with a nil error")
 }
